@@ -19,11 +19,21 @@ PROP = {'race': True,
              '(one Go statement / one callback call or return per step, loop goroutine and Shutdown goroutine interleaved arbitrarily); '
              'the Go scheduler, channel/select run-time semantics and the memory model are assumed, not exhibited (MEM-1): a step of the '
              'fine model is atomic and `close(done)` is visible to the next select',
-             'the models are tied to the source by (a) synchronisation skeletons regenerated from /repo by gen/syncskel.go on every run and '
-             'compared with the expected ones by `decide` (theorems skel_*), and for the fine model with the order its own step function '
-             'produces (fine_loop_order_matches_skeleton, fine_exits_match_skeleton, fine_shutdown_order_matches_skeleton), (b) trace '
-             'comparison on event scripts (C18.rw) and on statement-level scripts (C18.fine)',
-             'the translator gen/syncskel.go (go/ast) and the constants translator (ExitCodeSuccess/ExitCodeFailure)',
+             'the models are tied to the source by (a) synchronisation skeletons IN NORMAL FORM regenerated from /repo by gen/syncskel.go on '
+             'every run — the event graphs (order of channel ops / select / go / defer / return / panic / recover / dynamic and '
+             'sync-relevant external calls on every control path, choices offered at every point, direction of the loop over the services) '
+             'of the entry points Handle, Start, Shutdown, IsShutdownSignal with every same-package callee inlined, quotiented by '
+             'bisimilarity — compared with the expected ones by `decide` (theorems skel_handle, skel_start, skel_workerShutdown, '
+             'skel_isShutdownSignal), and for the fine model with the order its own step function produces: its canonical traces are '
+             'paths of the regenerated graphs (fine_loop_order_matches_skeleton, fine_exits_match_skeleton, '
+             'fine_shutdown_order_matches_skeleton, fine_alphabet_covers_skeleton), (b) trace comparison on event scripts (C18.rw) and on '
+             'statement-level scripts (C18.fine); status aggregation, returned errors and the contexts passed are NOT part of the '
+             'skeleton, they are compared by (b)',
+             'the translator gen/syncskel.go (go/types with the source importer; inlining, compilation of conditions to control flow, '
+             'name-free value descriptions, bisimulation quotient and merging of event-free condition chains are part of it; it assumes '
+             'that fmt, errors, cmp, slices, maps, strings, strconv, bytes, unicode, math, sort, log/slog, time (except timers), '
+             'golibs/errors and golibs/logutil/slogutil (except RecoverAndLog*) contain no synchronisation the model talks about; calls '
+             'into any other package are shown as events) and the constants translator (ExitCodeSuccess/ExitCodeFailure)',
              'linux signal numbers SIGINT=2, SIGQUIT=3, SIGTERM=15 (checked by the harness at start)',
              'harness quiescence detection: a goroutine of the worker is known to be blocked in a callback (it notifies), inferred to be '
              'blocked in the select (Clock.After was just called with an empty channel and Shutdown has not been called), or observed to '
@@ -32,8 +42,8 @@ PROP = {'race': True,
  'level_text': 'Lean theorems over all outcome vectors, signal sequences, schedules, select resolutions and event histories about '
                'executable models of SignalHandler.Handle/shutdown/shutdownService and of RefreshWorker.refreshInALoop/refresh/Shutdown, '
                'and over ALL interleavings of a statement-level transition system of the RefreshWorker loop goroutine with a concurrent '
-               'Shutdown; tied to the Go code by regenerated synchronisation skeletons (Gen = Expected by decide, and the fine model\'s '
-               'own step order = regenerated skeleton by decide) and by running the real code with real goroutines on the same scripts '
+               'Shutdown; tied to the Go code by regenerated synchronisation skeletons in normal form (event graphs of the entry points, Gen = '
+               'Expected by decide, and the fine model\'s own step order is a path of the regenerated graph by decide) and by running the real code with real goroutines on the same scripts '
                'and diffing the full call/return trace',
  'level_note': 'PARTIAL: proof about protocol models. Full strength on the coarse model: shutdown_reverse_once, '
                'status_success_only_if_all_nil, nonshutdown_ignored(+blocks, first_shutdown_signal), refresh_once_per_tick, '
